@@ -53,7 +53,7 @@ PROBES = ["image_moved_between_redraws", "image_disappeared", "bare_non_composit
           "images_rerendered_in_place", "stray_image_before_start",
           "redraw_while_resize_pending", "same_canvas_drawn_again_after_interrupt",
           "overlay_aimed_at_one_side_of_an_image",
-          "earlier_canvas_drawn_again_after_interrupt"]
+          "earlier_canvas_drawn_again_after_interrupt", "layout_reverted_after_interrupt"]
 COMPONENTS = {
     "real": ["UrwidImageScreen (draw_screen, clear, clear_images, _start, _stop, "
              "_ti_clear_images)", "UrwidImage / UrwidImageCanvas", "KittyImage / ITerm2Image / "
@@ -397,7 +397,9 @@ def run(ch, ctx, fault=None):
         earlier = []
         queue = []
         forced_aim = [False]
+        forced_int = [False]
         last_canvas = [None]     # (canvas, size) of the last completed redraw, while still usable
+        last_layout = [None]     # the layout it showed
         i = -1
         while True:
             i += 1
@@ -417,9 +419,16 @@ def run(ch, ctx, fault=None):
                     (6, "grid_edit"), (3, "move_overlay"), (2, "resize"), (1, "clear"),
                     (2, "clear_images"), (1, "stop_start"), (3, "draw_interrupted"),
                     (2, "swap_toggle"), (4 if layout["kind"] == "overlay" else 0, "popup"),
+                    (2 if layout["kind"] == "overlay" else 0, "popup_cut"),
                 ])
             if queue:
                 op = queue.pop(0)
+            elif op == "popup_cut":
+                # the same pop-up, but the redraw that shows it is cut short right after the
+                # delete commands for the covered image went out, and the pop-up is dismissed
+                queue = ["move_away", "draw", "move_aimed", "draw_interrupted"]
+                forced_int[0] = True
+                continue
             elif op == "popup":
                 # a pop-up that was elsewhere appears over one side of an image: redraw with
                 # the pop-up out of the way, move it onto the image, redraw
@@ -429,6 +438,7 @@ def run(ch, ctx, fault=None):
             if op not in ("draw", "draw_interrupted", "layout", "scroll", "grid_edit",
                           "move_overlay", "move_away", "move_aimed"):
                 last_canvas[0] = None
+                last_layout[0] = None
             if op == "move_away":
                 if layout["kind"] != "overlay":
                     del queue[:]
@@ -513,6 +523,7 @@ def run(ch, ctx, fault=None):
                 redraws[0] += 1
                 ctx.probe("ghost_free_redraws")
                 last_canvas[0] = (canvas, (size[0], size[1]))
+                last_layout[0] = copy_layout(layout)
             elif op == "draw_interrupted":
                 # Ctrl-C lands inside a redraw and the application carries on with its loop
                 if force_new[0]:
@@ -533,14 +544,25 @@ def run(ch, ctx, fault=None):
                 # has to go: the clean-up itself is cut short)
                 int_at = ch.pick("int_at", (1, 2, 2, 2, 3, 4, 5, 6)) if ch.bool("int_early", 0.5) \
                     else ch.int("int_at_late", 7, 60)
+                scripted = forced_int[0]
+                forced_int[0] = False
+                if scripted:
+                    int_at = 2
                 seen_w = [0]
                 real_write = out.write
+
+                # (the signal arrives as the write begins, or when its bytes are out already)
+                int_after = ch.bool("int_after_the_bytes_went_out", 0.4) or scripted
 
                 def interrupting_write(text):
                     # (the closing bracket itself is the redraw's clean-up: not interrupted)
                     if text != "\x1b[?2026l":
                         seen_w[0] += 1
                         if seen_w[0] == int_at:
+                            if int_after and text != "\x1b[?2026h":
+                                # (not the opening bracket: an interrupt between that write
+                                # and the `try` it precedes is the between-two-bytecodes kind)
+                                real_write(text)
                             raise KeyboardInterrupt
                     return real_write(text)
 
@@ -559,7 +581,7 @@ def run(ch, ctx, fault=None):
                                                else "(completed)")
                 last_geo[0] = None
                 force_new[0] = True
-                if hit and ch.bool("same_canvas_again", 0.6):
+                if hit and not scripted and ch.bool("same_canvas_again", 0.6):
                     # the main loop survives and draws again: nothing was invalidated, so it is
                     # the very same canvas object
                     screen.draw_screen((size[0], size[1]), canvas)
@@ -577,7 +599,8 @@ def run(ch, ctx, fault=None):
                                          "layout": repr(layout)[:300],
                                          "history": key[-8:] + [desc]}, "draw")
                     ctx.probe("same_canvas_drawn_again_after_interrupt")
-                elif hit and last_canvas[0] and last_canvas[0][1] == (size[0], size[1]) \
+                elif hit and not scripted and last_canvas[0] \
+                        and last_canvas[0][1] == (size[0], size[1]) \
                         and last_canvas[0][0] is not canvas and ch.bool("earlier_canvas_again", 0.6):
                     # ... or what was being shown is dismissed again and the widget tree is
                     # back to what it was: the canvas of the last completed redraw comes out of
@@ -599,6 +622,14 @@ def run(ch, ctx, fault=None):
                     ctx.probe("earlier_canvas_drawn_again_after_interrupt")
                     screen.clear()
                     out.drain()
+                elif hit and last_layout[0] is not None and \
+                        (scripted or ch.bool("layout_reverted", 0.5)):
+                    # ... or what was being opened is dismissed: back to the layout of the last
+                    # completed redraw (a new top canvas, the image widgets' canvases cached)
+                    layout = copy_layout(last_layout[0])
+                    queue.insert(0, "draw")
+                    desc += "; back to the previous layout"
+                    ctx.probe("layout_reverted_after_interrupt")
                 last_canvas[0] = None
             elif op == "swap_toggle":
                 # the application corrects the reported window dimensions (win-size swap): the
